@@ -75,6 +75,12 @@ def boundary_templates(rng):
     out += ['{if case="1" true="{var:a"}}', '{if case="1" true="{var:a"} false="b"}', '{if case="0" true="t" false="{raw:a"}}', '{if case="1" true="x{math:1+1"}y"}',
             '{if case="1" true="{var:a" false="{var:b"}}', "{if case='1' true='{var:a'}}", '{if case="1" false="{var:a}" true="{var:b"}"}', '{if case="1" true="{svar:a, {var:b"}}"}',
             '<loop set="list" value="v">{if case="1" true="{var:v"}}</loop>', '{if case="1" true="{var:a}{var:b"}}x', '{if case="{var:a"}" true="t"}']
+    # arithmetic that must not trap: real operands at the int64 boundaries under % / ^ with divisors around -1 and 0
+    for left in ("(0 - 4611686018427387904) * 2.0", "(0 - 9223372036854775807) - 1.5 + 0.5", "4611686018427387904 * 2.0", "18446744073709551615 * 1.0", "{var:rmin}", "{var:rmax}"):
+        for op in ("%", "/", "^"):
+            for right in ("(0 - 1)", "(0 - 1.5)", "(0 - 0.5)", "0", "(0 * (0 - 1.5))", "1", "{var:m1}", "{var:mz}"):
+                out.append("{math:" + left + " " + op + " " + right + "}")
+    out += ['{if case="{var:rmin} % {var:m1}" true="t" false="f"}', '<if case="({var:rmin} % (0-1)) == 0">a<else>b</if>']
     # super variables without a usable name (empty, or of 256 / 512 units: the 8-bit length is 0) inside open blocks,
     # followed by closing braces: nothing may be popped that the tag did not push
     for nm in ("", "n" * 256, "n" * 512, " "):
@@ -187,7 +193,8 @@ def check(tier):
     cases, dist = gen_fuzz(rng, n)
     bt = boundary_templates(rng)
     # deep nestings iterate the root at every level: a one-member root keeps the work linear
-    bcases = [(rng.choice([0, 1, 2, 3]), t, ({"a": "x"} if t.count("<loop") > 50 else {"a": "x", "v": 1, "list": [1, [2], 3], "obj": {"k": 1, "k2": "z"}, "items": [{"name": "n", "g": "p"}, {"g": "q", "name": "m"}], "item": [4, 5]})) for t in bt]
+    bcases = [(rng.choice([0, 1, 2, 3]), t, ({"a": "x"} if t.count("<loop") > 50 else {"a": "x", "v": 1, "list": [1, [2], 3], "obj": {"k": 1, "k2": "z"}, "items": [{"name": "n", "g": "p"}, {"g": "q", "name": "m"}], "item": [4, 5],
+                                                                                                      "rmin": -9223372036854775808.0, "rmax": 9223372036854775808.0, "m1": -1, "mz": -0.0})) for t in bt]
     bcases += [(0, t, [[1, 2], {"a": 1}, "s"]) for t in bt[:40] if t.count("<loop") < 50]
     allcases = bcases + cases
     impl, crashes = vlib.run_sharded(exe, [], lines_of(allcases), timeout=600)
